@@ -12,6 +12,7 @@ import (
 	"pgregory.net/rapid"
 
 	"verif/harness/cs"
+	"verif/harness/ev"
 	"verif/harness/gen"
 	"verif/harness/model"
 	"verif/harness/run"
@@ -200,10 +201,10 @@ func concurrentReaders(backend string, docs []cs.Doc, readers int) *sm.Fail {
 		wg.Add(1)
 		go func(g int) {
 			defer wg.Done()
-			for round := 0; round < 12 && fails[g] == nil; round++ {
+			for round := 0; round < 30 && fails[g] == nil; round++ {
 				var out *cs.Outcome
 				var op cs.Op
-				if (g+round)%2 == 0 {
+				if (g+round)%2 == 0 && g%2 == 0 {
 					// the fixed documents are the ones without a "churn" field
 					op = cs.Op{Kind: "find", Q: &cs.Query{Coll: "A", Crit: &cs.Crit{Op: "notexists", Field: "churn"}}}
 				} else {
@@ -237,7 +238,7 @@ func TestC11(t *testing.T) {
 	t.Run("concurrent-readers", func(t *testing.T) {
 		col := collector("C11", ruleC11)
 		cfg := gen.ValCfg{NonUTF8: true, MaxDepth: 3, TimeWide: true}
-		check(t, "C11", cases(120, 3000), 0, func(rt *rapid.T) {
+		check(t, "C11", cases(320, 3000), 0, func(rt *rapid.T) {
 			backend := rapid.SampledFrom([]string{run.Bbolt, run.BadgerMem}).Draw(rt, "backend")
 			n := rapid.IntRange(2, 12).Draw(rt, "ndocs")
 			docs := make([]cs.Doc, n)
@@ -256,12 +257,15 @@ func TestC11(t *testing.T) {
 }
 
 func testC11RoundTrip(t *testing.T) {
-	col := collector("C11", ruleC11)
+	check(t, "C11", cases(9000, 250000), 0, propC11RoundTrip(collector("C11", ruleC11)))
+}
+
+func propC11RoundTrip(col *ev.Collector) func(rt *rapid.T) {
 	backends := []string{run.Bbolt, run.Bbolt, run.BadgerMem}
 	mixed := gen.ValCfg{NonUTF8: true, LongStr: true, MaxDepth: 4, TimeWide: true, TimeFar: true}
 	wide := gen.ValCfg{NonUTF8: true, Wide: true, MaxDepth: 4, TimeWide: true, TimeFar: true}
 	names := []string{"x", "y", "n", "s", "t", "deep", ""}
-	check(t, "C11", cases(5000, 100000), 0, func(rt *rapid.T) {
+	return func(rt *rapid.T) {
 		backend := rapid.SampledFrom(backends).Draw(rt, "backend")
 		s, err := c11Session(backend)
 		if err != nil {
@@ -343,6 +347,22 @@ func testC11RoundTrip(t *testing.T) {
 			do(cs.Op{Kind: "find", Q: &cs.Query{Coll: "A"}})
 			do(cs.Op{Kind: "findbyid", Coll: "A", Id: &cs.IdRef{Lit: gen.Id(0)}})
 			do(cs.Op{Kind: "findbyid", Coll: "A", Id: &cs.IdRef{Lit: gen.Id(1)}})
+			// read through criteria that look into the values (Contains on an array field, In on a
+			// scalar one): evaluating them must not disturb what is returned
+			if c := s.M.Colls["A"]; c != nil {
+				for _, id := range c.Ids() {
+					d := c.Docs[id]
+					for _, k := range cs.SortedKeys(d) {
+						if a, ok := d[k].([]interface{}); ok && len(a) >= 2 && k != "" {
+							if last := a[len(a)-1]; model.IsFinite(last) && !model.HasBadLiteral(&cs.Crit{Op: "eq", Field: k, Arg: &cs.Operand{Kind: "lit", Lit: cs.V{X: last}}}) {
+								o := cs.Operand{Kind: "lit", Lit: cs.V{X: cs.Clone(last)}}
+								do(cs.Op{Kind: "find", Q: &cs.Query{Coll: "A", Crit: &cs.Crit{Op: "contains", Field: k, Args: []cs.Operand{o}}}})
+								return
+							}
+						}
+					}
+				}
+			}
 		}
 		read()
 		if run.OnDisk(backend) {
@@ -350,5 +370,5 @@ func testC11RoundTrip(t *testing.T) {
 			read()
 			col.Class("reopened")
 		}
-	})
+	}
 }
